@@ -25,10 +25,10 @@ class Plan:
 
 PLAN = None
 
-def module(name, uses=None):
-    """start a module of the generated file"""
+def module(name, uses=None, export=True):
+    """start a module of the generated file (export=False: not glob re-exported at the top level)"""
     PLAN.module = name
-    PLAN.items.append(Item('module', name=name, uses=uses or []))
+    PLAN.items.append(Item('module', name=name, uses=uses or [], export=export))
 
 def raw(text, tag=None, props=None):
     """verbatim Verus text: spec functions, lemmas, trusted std specs, witnesses"""
